@@ -24,6 +24,8 @@ import glob
 allchecks = []
 for f in sorted(glob.glob(os.path.join(V, "checks", "*", "check.json"))):
     allchecks.append(json.load(open(f)))
+ready = set(l.strip() for l in open(os.path.join(V, "tools", "ready.txt")) if l.strip() and not l.startswith("#"))
+allchecks = [c for c in allchecks if c["id"] in ready]
 for c in allchecks:
     pid = c["id"]; claimed.add(pid)
     out["checks"].append({
